@@ -83,6 +83,7 @@ type c10Case struct {
 	Fresh  bool    `json:"fresh,omitempty"`
 	Hist   *c03Case `json:"hist,omitempty"`
 	Prog   *c01Case `json:"prog,omitempty"`
+	Volume int      `json:"volume,omitempty"` // this many keys under one prefix
 }
 
 func c10Gen(g *fw.GenCtx) []fw.Case {
@@ -110,6 +111,15 @@ func c10Gen(g *fw.GenCtx) []fw.Case {
 				ops = append(ops, alpha[rng.Intn(len(alpha))])
 			}
 			cases = append(cases, fw.MkCase("kv", c10Case{Driver: d, Ops: ops, Fresh: i%20 == 0}))
+		}
+	}
+	// more keys under one prefix than the adapters' internal block size (10000)
+	for _, d := range c10Drivers {
+		for _, n := range []int{9998, 9999, 10000, 10001, 20005} {
+			if g.Quick() && (n == 9998 || n == 10000) {
+				continue
+			}
+			cases = append(cases, fw.MkCase("volume", c10Case{Driver: d, Volume: n}))
 		}
 	}
 	// cross-driver half: C03 histories and C01 programs on every driver
@@ -361,6 +371,60 @@ func applyKV(kv kvi.KVInterface, m kvModel, o kvOp) (got, want []string, err err
 	return
 }
 
+// c10Volume: n keys under one prefix next to keys under neighbouring prefixes;
+// walks must see all of them, DeletePrefix must remove exactly them.
+func c10Volume(w *fw.Worker, cc c10Case) fw.Result {
+	kv, err := c10Open(w, cc.Driver)
+	if err != nil {
+		return fw.InconclusiveR("open: " + err.Error())
+	}
+	defer kv.Close()
+	others := []string{"o|z", "p", "p{", "q|a"} // sort before, just before, just after and after the prefix
+	err = kv.BulkWrite(func(bw kvi.KVBulkWrite) error {
+		for i := 0; i < cc.Volume; i++ {
+			if err := bw.Set([]byte(fmt.Sprintf("p|%06d", i)), []byte{byte(i)}); err != nil {
+				return err
+			}
+		}
+		for _, k := range others {
+			if err := bw.Set([]byte(k), []byte("x")); err != nil {
+				return err
+			}
+		}
+		return nil
+	})
+	if err != nil {
+		return fw.ViolatedR(cc.Driver+":volume:write", fmt.Sprintf("%s: BulkWrite of %d keys failed: %v", cc.Driver, cc.Volume+len(others), err), cc)
+	}
+	walk := func() (n int, rest []string) {
+		kv.View(func(it kvi.KVIterator) error {
+			for it.Seek([]byte{}); it.Valid(); it.Next() {
+				k := string(it.Key())
+				if strings.HasPrefix(k, "p|") {
+					n++
+				} else {
+					rest = append(rest, k)
+				}
+			}
+			return nil
+		})
+		return
+	}
+	res := fw.HeldR(true, "")
+	res.AddSet("drivers", cc.Driver)
+	res.Count("volume_keys", int64(cc.Volume))
+	if n, rest := walk(); n != cc.Volume || strings.Join(rest, ",") != strings.Join(others, ",") {
+		return fw.ViolatedR(cc.Driver+":volume:walk", fmt.Sprintf("%s: a walk over %d+%d keys sees %d keys under the prefix and %v elsewhere", cc.Driver, cc.Volume, len(others), n, rest), cc)
+	}
+	if err := kv.DeletePrefix([]byte("p|")); err != nil {
+		return fw.ViolatedR(cc.Driver+":volume:DeletePrefix", fmt.Sprintf("%s: DeletePrefix over %d keys failed: %v", cc.Driver, cc.Volume, err), cc)
+	}
+	if n, rest := walk(); n != 0 || strings.Join(rest, ",") != strings.Join(others, ",") {
+		return fw.ViolatedR(cc.Driver+":volume:DeletePrefix", fmt.Sprintf("%s: after DeletePrefix over %d keys, %d keys under the prefix are left; keys elsewhere %v (want %v)", cc.Driver, cc.Volume, n, rest, others), cc)
+	}
+	return res
+}
+
 func c10Exec(w *fw.Worker, c fw.Case) fw.Result {
 	var cc c10Case
 	c.Decode(&cc)
@@ -369,6 +433,8 @@ func c10Exec(w *fw.Worker, c fw.Case) fw.Result {
 		return c10Hist(w, cc)
 	case "prog":
 		return c10Prog(w, cc)
+	case "volume":
+		return c10Volume(w, cc)
 	}
 	var kv kvi.KVInterface
 	var err error
@@ -515,7 +581,7 @@ var _ = gq.Trunc
 func init() {
 	fw.Register(&fw.Property{
 		ID:   "C10",
-		Rule: "per driver (badger, bolt, level, pebble, opened through kvi.NewKVInterface): operation sequences over Set/Delete/DeletePrefix/Update (Set, Delete, Get, HasKey and an iterator walk inside the transaction)/BulkWrite on keys over {a,b,0x00,0xff} with shared prefixes and empty values - exhaustive to depth 2 (quick) / 3 (thorough) over 27 operations plus 300 / 20000 random sequences of length 10-40; after EVERY operation the whole observation set (Get, HasKey, it.Get on 15 probe keys, forward and reverse seek+walk from 16 probe keys, several seeks inside one View) is compared with a sorted-map model. Cross-driver half: 100 / 3000 C03 histories and 200 / 5000 C01 programs replayed on kvgraph over each driver against the same abstract-graph / traversal models. Non-trivial = the model map is non-empty (or the replayed case is).",
+		Rule: "per driver (badger, bolt, level, pebble, opened through kvi.NewKVInterface): operation sequences over Set/Delete/DeletePrefix/Update (Set, Delete, Get, HasKey and an iterator walk inside the transaction)/BulkWrite on keys over {a,b,0x00,0xff} with shared prefixes and empty values - exhaustive to depth 2 (quick) / 3 (thorough) over 27 operations plus 300 / 20000 random sequences of length 10-40; after EVERY operation the whole observation set (Get, HasKey, it.Get on 15 probe keys, forward and reverse seek+walk from 16 probe keys, several seeks inside one View) is compared with a sorted-map model. Volume: 9999, 10001, 20005 (thorough also 9998, 10000) keys under one prefix between keys of neighbouring prefixes - a walk sees all of them and DeletePrefix removes exactly them (the adapters delete in blocks of 10000). Cross-driver half: 100 / 3000 C03 histories and 200 / 5000 C01 programs replayed on kvgraph over each driver against the same abstract-graph / traversal models. Non-trivial = the model map is non-empty (or the replayed case is).",
 		Assumptions: []string{
 			"SeekReverse(k) positions at the largest key <= k and Next() then descends (what the Badger adapter does and kvindex relies on)",
 			"closures passed to Update/BulkWrite return nil (rollback on error differs by design and is not part of the property)",
